@@ -364,7 +364,18 @@ def resolveActionConflicts (fuel : Nat) (actionable : List Key) : M (List Key) :
         if k = picked then continue
         let cspec ← specOf k
         let competing ← getEvent k.1 cspec false
-        if eventIsEqual winning competing then
+        -- `_is_same_event_for_conflict`: equal events of two DIFFERENT action instances only agree when they start the action
+        let sameEvent ← (do
+          if !eventIsEqual winning competing then return false
+          match winning.kind, winning.actionUid, competing.kind, competing.actionUid with
+          | .action, some wu, .action, some cu =>
+            if wu ≠ cu then
+              match ← getAction? wu with
+              | some a => return winning.name = "Start" ++ a.name
+              | none => return false
+            else return true
+          | _, _, _, _ => return true : M Bool)
+        if sameEvent then
           match winning.kind, winning.actionUid, competing.kind, competing.actionUid with
           | .action, some wu, .action, some cu =>
             if cu ≠ wu then
